@@ -71,14 +71,14 @@ fn comments_between_statements_only(src: &str) -> bool {
 }
 
 #[derive(Clone, Copy, PartialEq)]
-enum Layout {
+pub enum Layout {
     /// random whitespace, newlines, CRLF and comments between any two tokens
     Wild,
     /// one statement per line, comments on lines of their own between statements
     Tidy,
 }
 
-fn layout(toks: &[String], t: &mut Tape, mode: Layout) -> String {
+pub fn layout(toks: &[String], t: &mut Tape, mode: Layout) -> String {
     let mut s = String::new();
     let mut depth = 0i32;
     if mode == Layout::Tidy && t.chance(1, 3) {
@@ -126,7 +126,7 @@ fn layout(toks: &[String], t: &mut Tape, mode: Layout) -> String {
 }
 
 /// token-level decorations: trailing commas, redundant parentheses around integer literals
-fn decorate(toks: Vec<String>, t: &mut Tape) -> Vec<String> {
+pub fn decorate(toks: Vec<String>, t: &mut Tape) -> Vec<String> {
     let mut out: Vec<String> = vec![];
     let n = toks.len();
     for i in 0..n {
